@@ -93,6 +93,7 @@ int runEngineH(Json const & plan) {
     mc.frames = mon["frames"].asBool();
     mc.farkas = mon["farkas"].asBool();
     if (mon.has("max_tclauses")) mc.maxTClauses = (int)mon["max_tclauses"].asInt();
+    mc.dumpDbOnFailure = mon["dump_db"].asBool();
     monitorsInstall(mc, plan["unusual"]);
 
     if (plan.has("clock")) {
